@@ -94,6 +94,12 @@ func runBrkSeq(th int, steps []brkStep) ([]brkObs, bool) {
 		if t2-t > brkWindow/3 {
 			judgeable = false
 		}
+		// a "timeout" step means: the protected function is still running when the breaker's
+		// timer fires.  On a starved machine the call may take so long that the function has
+		// finished too and the breaker legitimately takes its result: such a run is repeated
+		if st.kind == 2 && (res == 'K' || t2-t >= brkSlowFn-brkSlowFn/10) {
+			judgeable = false
+		}
 		lastEnd = t2
 		if st.kind == 2 {
 			lastEnd = time.Since(base)
